@@ -165,17 +165,26 @@ def h5_configs(tier):
 def h5_export(sc, d, rep, tier, export=True, invs=None):
     """Direction B, HTML side: TLC explores Html5.tla exhaustively for each configuration
     (all invariants on) and prints every terminal behaviour; returns the behaviours."""
-    beh = []
-    for name, alpha, maxlen, prefixes, ctxs in h5_configs(tier):
+    from concurrent.futures import ThreadPoolExecutor
+    cfgs = list(h5_configs(tier))
+
+    def one(c):
+        name, alpha, maxlen, prefixes, ctxs = c
         res = vlib.tlc_mc(sc, d, "Html5", "Html5_" + name, {
             "Alphabet": tla_set(alpha), "MaxLen": maxlen,
             "Openers": "{" + ", ".join(tla_seq(p) for p in prefixes) + "}",
             "CtxSet": tla_set(list(ctxs)), "DoExport": "TRUE" if export else "FALSE"},
-            invariants=invs or H5_INVS, properties=["StepVariant"], timeout=3000)
+            invariants=invs or H5_INVS, properties=["StepVariant"], timeout=3000, workers=5, heap="6g")
         if res.violated:
             raise ToolFailure("specification invariant %s violated in Html5/%s:\n%s" % (res.violated, name, res.out[-3000:]))
         if not res.ok:
             raise ToolFailure("TLC failed on Html5/%s:\n%s" % (name, res.out[-3000:]))
+        return res
+
+    with ThreadPoolExecutor(max_workers=4) as ex:
+        results = list(ex.map(one, cfgs))
+    beh = []
+    for (name, alpha, maxlen, prefixes, ctxs), res in zip(cfgs, results):
         rep.add_tlc("Html5/" + name, res)
         got = res.printed()
         rep.part("Html5/" + name, alphabet=show(alpha), maxlen=maxlen, prefixes=[show(p) for p in prefixes],
@@ -813,4 +822,204 @@ def c04(tier, sc):
             rep.sample({"family": c["fam"], "vector": show(c["in"])})
     rep.assumptions += ["the grammar is generated from the pinned Baseline lists, so removing a shipped entry is noticed",
                         "obfuscation dimensions (case forms, NUL positions, separators, quoting) are enumerated to the bound written in XssGen.tla"]
+    return rep.finish()
+
+
+# ---------------------------------------------------------------------------
+# shared SQLi machinery
+
+import vsqli
+
+SQLI_INVS = ["TypeOK", "LexInv", "WindowInRange", "FoldTerminates", "NoWhitelistPanic", "NoSemiIfPanic", "FpShape",
+             "ResultConsistent", "CascadeOrder", "Export"]
+
+ALLFLAGS = [9, 17, 10, 18, 12, 20]
+TLC_PAR_JOBS = 4          # independent TLC configurations run side by side ...
+TLC_PAR_WORKERS = 5       # ... each with this many workers
+
+
+def units(strs):
+    return "{" + ", ".join(tla_seq(vgen.b(x)) for x in strs) + "}"
+
+
+SQL_TOKEN_UNITS = ["1", "a ", "'s'", "'", "@v", "+", "-", "or ", "union ", "select ", "(", ")", ",", ";", ".", "{", "}", "\\",
+                   "int ", "collate ", "user", "in ", "like ", "not ", "::", "/**/", "--\n", "`` ", "if", "=", "#", "\"", "x_y ", "1.e "]
+
+
+def sqli_configs(tier):
+    """(name, level, units, maxlen, openers, flags) explored exhaustively by TLC on Sqli.tla."""
+    S = vgen.b
+    byte_units = lambda s: [bytes([c]).decode("latin1") for c in S(s)]
+    sig_lex = byte_units("1a '\"`\\-#/*;(.@=<!&$[{:?_\nexnqbu0\xa0")
+    core = byte_units("1a'\" -#/*=(")
+    if tier == "quick":
+        return [
+            ("lex.sigma2", "lex", sig_lex, 2, [""], ALLFLAGS),
+            ("lex.sigma3", "lex", sig_lex, 3, [""], [9]),
+            ("lex.str", "lex", byte_units("'\"\\a "), 5, ["", "'", "e'", "@\"", "u&'"], [9, 10, 20]),
+            ("lex.num", "lex", byte_units("01.e+xb'f u"), 4, [""], [9]),
+            ("lex.q", "lex", byte_units("q'[]x( \xe9"), 4, ["", "n"], [9]),
+            ("lex.dollar", "lex", byte_units("$aA1.,"), 4, ["$"], [9]),
+            ("lex.comment", "lex", byte_units("/*!-\n #"), 4, [""], [9, 17]),
+            ("pass.core3", "pass", core, 3, [""], ALLFLAGS),
+            ("pass.core4", "pass", core, 4, [""], [9, 10]),
+            ("pass.tok", "pass", SQL_TOKEN_UNITS, 3, [""], [9]),
+            ("check.core", "check", core, 4, [""], [9]),
+            ("check.tok", "check", SQL_TOKEN_UNITS, 3, [""], [9]),
+            ("check.tokq", "check", SQL_TOKEN_UNITS[:16], 3, ["1'", "1\" "], [9]),
+        ]
+    return [
+        ("lex.sigma", "lex", sig_lex, 4, [""], ALLFLAGS),
+        ("lex.str", "lex", byte_units("'\"\\a "), 8, ["", "'", "e'", "@\"", "u&'"], [9, 10, 20]),
+        ("lex.num", "lex", byte_units("01.e+xb'f u"), 6, [""], [9]),
+        ("lex.q", "lex", byte_units("q'[]x( \xe9"), 7, ["", "n"], [9]),
+        ("lex.dollar", "lex", byte_units("$aA1.,"), 7, ["$"], [9]),
+        ("lex.comment", "lex", byte_units("/*!-\n #"), 7, [""], [9, 17]),
+        ("pass.core", "pass", core, 5, [""], ALLFLAGS),
+        ("pass.tok", "pass", SQL_TOKEN_UNITS, 4, [""], [9, 17]),
+        ("check.core", "check", core, 6, [""], [9]),
+        ("check.tok", "check", SQL_TOKEN_UNITS, 4, ["", "1'", "1\" "], [9]),
+    ]
+
+
+def sqli_export(sc, d, rep, tier, only=None, export=True):
+    """Direction B, SQL side: exhaustive TLC runs of Sqli.tla with all invariants; returns the exported behaviours."""
+    from concurrent.futures import ThreadPoolExecutor
+    cfgs = [c for c in sqli_configs(tier) if not only or c[1] in only]
+
+    def one(c):
+        name, level, un, maxlen, openers, flags = c
+        res = vlib.tlc_mc(sc, d, "Sqli", "Sqli_" + name.replace(".", "_"), {
+            "Units": units(un), "MaxLen": maxlen, "Openers": units(openers), "FlagSet": tla_set(flags),
+            "Level": '"%s"' % level, "DoExport": "TRUE" if export else "FALSE"},
+            invariants=SQLI_INVS, timeout=6000, workers=TLC_PAR_WORKERS, heap="6g")
+        if res.violated:
+            raise ToolFailure("specification invariant %s violated in Sqli/%s:\n%s" % (res.violated, name, res.out[-3000:]))
+        if not res.ok:
+            raise ToolFailure("TLC failed on Sqli/%s:\n%s" % (name, res.out[-3000:]))
+        return res
+
+    with ThreadPoolExecutor(max_workers=TLC_PAR_JOBS) as ex:
+        results = list(ex.map(one, cfgs))
+    beh = []
+    for (name, level, un, maxlen, openers, flags), res in zip(cfgs, results):
+        rep.add_tlc("Sqli/" + name, res)
+        got = res.printed()
+        rep.part("Sqli/" + name, level=level, units=[show(vgen.b(u)) for u in un][:40], maxlen=maxlen,
+                 openers=openers, flags=list(flags), behaviours=len(got))
+        for g in got:
+            g["_level"] = level
+        beh += got
+    return beh
+
+
+def sqli_inputs(tier, salt):
+    r = vgen.rng(salt)
+    big = tier == "thorough"
+    fx = []
+    for kind in ("sqli", "folding", "tokens", "tokens_mysql"):
+        fx += [vgen.b(i) for _, i, _ in vgen.fixtures(kind)]
+    cp = vgen.corpus("sqli.txt")
+    base = list(vgen.dedup(fx + cp))
+    items = list(base)
+    items += list(vgen.prefixes(base, 120))[:: (1 if big else 4)]
+    items += list(vgen.mutations(base, vgen.SIGMA_SQL, r, per_input=30 if big else 3))
+    items += list(vgen.walks(vgen.SQL_FRAGMENTS, r, 60000 if big else 5000, 1, 8))
+    items += list(vgen.periodic_tails(r, 6000 if big else 600))
+    return list(vgen.dedup(items))
+
+
+def sqli_trace_validate(sc, d, rep, vh, inputs, name="TraceSqli"):
+    inp = sc.path(name + "-inputs.ndjson")
+    write_ndjson(inp, [{"in": x} for x in inputs])
+    tr = sc.path(name + "-trace.ndjson")
+    run([vh, "sqli-record", inp, tr], check=True, timeout=3000)
+    t0 = time.time()
+    ev, ntr, rejects, st, gen = validate_traces(sc, d, "TraceSqli.tla", "TraceSqli.cfg", tr, heap="4g")
+    rep.cov["states"] += st
+    rep.cov["transitions"] += gen
+    rep.part(name, events=ev, traces=ntr, rejected=len(rejects), inputs=len(inputs), wall_s=round(time.time() - t0, 1))
+    return ev, ntr, rejects
+
+
+def sqli_canary(sc, d, vh):
+    inp = sc.path("scanary-in.ndjson")
+    write_ndjson(inp, [{"in": vgen.b("1' or 1=1 /* x */ union select 'a', 2 -- ")}])
+    tr = sc.path("scanary-trace.ndjson")
+    run([vh, "sqli-record", inp, tr], check=True, timeout=60)
+    lines = open(tr).read().strip().split("\n")
+
+    def mutate(pred, fn):
+        out = list(lines)
+        for i, l in enumerate(out):
+            e = json.loads(l)
+            if pred(e):
+                fn(e)
+                out[i] = json.dumps(e, separators=(",", ":"))
+                return out
+        raise ToolFailure("canary: no event to corrupt")
+    variants = [
+        mutate(lambda e: e["ev"] == "tok" and e["ntok"] == 3, lambda e: e["t"].__setitem__("pos", e["t"]["pos"] + 1)),
+        mutate(lambda e: e["ev"] == "tok" and e["ntok"] == 2, lambda e: e["t"].__setitem__("cat", 110 if e["t"]["cat"] != 110 else 49)),
+        mutate(lambda e: e["ev"] == "api.fold" and e["fpos"] >= 2, lambda e: e.__setitem__("left", e["left"] + 1)),
+        mutate(lambda e: e["ev"] == "api.passend", lambda e: e.__setitem__("fp", e["fp"][:-1])),
+        mutate(lambda e: e["ev"] == "api.end", lambda e: e.__setitem__("sqli", not e["sqli"])),
+    ]
+    drop = [l for l in lines if not ('"ev":"api.pass"' in l and '"flags":10' in l)]
+    variants.append(drop)
+    for i, v in enumerate(variants):
+        p = sc.path("scanary-%d.ndjson" % i)
+        open(p, "w").write("\n".join(v) + "\n")
+        ev, ntr, rejects, _, _ = validate_traces(sc, d, "TraceSqli.tla", "TraceSqli.cfg", p, shards=1)
+        if len(rejects) < 1:
+            raise ToolFailure("SQLi canary %d accepted: a corrupted trace was not rejected" % i)
+    ev, ntr, rejects, _, _ = validate_traces(sc, d, "TraceSqli.tla", "TraceSqli.cfg", tr, shards=1)
+    return not rejects
+
+
+@check("C06")
+def c06(tier, sc):
+    rep = Report("C06", tier, "model_checking")
+    vh = build_harness(sc)
+    tfile, _ = gen_tables(sc, vh)
+    d = stage_specs(sc, "c06", [tfile])
+    # the specification alone against the upstream fixture expectations
+    bad = vsqli.fixture_selfcheck(sc, d, rep)
+    if bad:
+        raise ToolFailure("specification disagrees with upstream fixtures (specification error): %r" % (bad[:3],))
+    # direction B
+    beh = sqli_export(sc, d, rep, tier)
+    bfile = sc.path("sqli-behaviours.ndjson")
+    write_ndjson(bfile, [{k: v for k, v in b.items() if k != "_level"} for b in beh])
+    mm = sc.path("sqli-mismatch.ndjson")
+    run([vh, "sqli-replay", bfile, mm], check=True, timeout=3000)
+    mism = read_ndjson(mm)
+    for m in mism:
+        lvl = "lex" if "end" in m["spec"] else ("pass" if "black" in m["spec"] else "check")
+        rep.violation("real SQLi %s differs from the specification (%s) on %r mode=%s" % (
+            {"lex": "lexer", "pass": "pass", "check": "cascade"}[lvl], m["why"], show(m["in"]), m["flags"]),
+            {"kind": "sqli.conf", "level": lvl, "in": m["in"], "flags": m["flags"], "why": m["why"],
+             "spec": m["spec"], "impl": m["impl"]})
+    rep.cov["traces_validated_against_impl"] += len(beh)
+    rep.part("replayB", behaviours=len(beh), mismatches=len(mism))
+    # direction A
+    inputs = sqli_inputs(tier, "c06")
+    ev, ntr, rejects = sqli_trace_validate(sc, d, rep, vh, inputs)
+    rep.cov["traces_validated_against_impl"] += ntr
+    for rj in rejects:
+        rep.violation("trace of the real code rejected by the specification (%s) on %r mode=%s: spec %s impl %s" % (
+            rj["reject"], show(rj["in"]), rj["flags"], json.dumps(rj["spec"])[:300], json.dumps(rj["impl"])[:300]),
+            {"kind": "sqli.conf", "level": "trace", "in": rj["in"], "flags": rj["flags"], "why": rj["reject"],
+             "spec": rj["spec"], "impl": rj["impl"]})
+    if not sqli_canary(sc, d, vh):
+        rep.notes.append("canary base trace itself rejected (see violations)")
+    for b in beh[2000:2002]:
+        rep.sample({"in": show(b["in"]), "level": b["_level"], "flags": b.get("flags", 0)})
+    for x in inputs[100:103]:
+        rep.sample({"in": show(x)})
+    rep.cov["evaluations"] = len(beh) + ntr
+    rep.assumptions += ["specification written from the algorithm, validated on its own against the 417 upstream fixtures",
+                        "named port deviations (DESIGN 7.2) are part of the specification",
+                        "VerifSQLiLex / VerifSQLiPass drive the same tokenize()/fold()/blacklist()/notWhitelist() the public API runs; "
+                        "the api.* events are hooks inside the real IsSQLi call"]
     return rep.finish()
